@@ -56,6 +56,18 @@ def sentinel_scenarios():
              fit_intercept=True, storage="csc", sentinel="penalty.value(w) with the intercept"),
         dict(base, solver="MultiTaskBCD", datafit="QuadraticMultiTask", penalty="L2_1", fit_intercept=True,
              storage="csc", sentinel="intercept row"),
+        # the dual design of the SVC is (n_features x n_samples): row / column counts are easy to swap
+        dict(base, solver="FISTA", datafit="QuadraticSVC", penalty="IndicatorBox", fit_intercept=False,
+             storage="csc", data="wide", max_iter=8, sentinel="power method on the transposed SVC design (wide)"),
+        dict(base, solver="FISTA", datafit="QuadraticSVC", penalty="IndicatorBox", fit_intercept=False,
+             storage="csc", data="corr98wide", max_iter=3, sentinel="same, other shape"),
+        dict(base, solver="AndersonCD", datafit="QuadraticSVC", penalty="IndicatorBox", fit_intercept=False,
+             storage="csc", data="wide", sentinel="SVC dual, wide"),
+        dict(base, solver="AndersonCD", datafit="Logistic", penalty="L1", fit_intercept=True, strategy="fixpoint",
+             storage="dense", data="big", p0="10", max_iter=8, max_epochs=25,
+             sentinel="working set strictly inside the features, last features active (fixpoint scores)"),
+        dict(base, solver="ProxNewton", datafit="Logistic", penalty="L1", fit_intercept=True, strategy="fixpoint",
+             storage="csc", data="big", p0="10", max_iter=5, sentinel="same for ProxNewton / CSC"),
     ]
 
 
@@ -76,7 +88,7 @@ def run(prop, tier, seed):
             ck.add_tlc(r, name=f"Bounds[{cfg}] |= InBounds", kind="design")
             if bool(r["violated"]) != expect:
                 ck.machinery(f"Bounds model {cfg}: expected violated={expect}, got {r['violated']}")
-        scs, r = solverprops.gen_scenarios("ALL", N[tier], seed + 20)
+        scs, r = solverprops.gen_scenarios("ALL", N[tier], seed + 20, density=1)
         ck.add_tlc(dict(distinct=len(scs), states=len(scs), wall_s=r["wall_s"]),
                    name="SolverScenario -simulate", kind="scenario generator")
     except tlc.TLCError as e:
